@@ -24,6 +24,14 @@ enum Ev {
     Dis,
     Upd,
     Lr,
+    /// `tfs` / `tfc`: the state / command slot of the wrapper's terminal starts following its scripted getter; `tnfs` / `tnfc`: stops
+    Tfs,
+    Tfc,
+    Tnfs,
+    Tnfc,
+    /// `tgs:<Output<Datum<State>>>` / `tgc:<Output<Datum<Command>>>`: what that scripted getter returns from now on
+    Tgs(Output<Datum<State>, E>),
+    Tgc(Output<Datum<Command>, E>),
 }
 #[derive(Clone, Copy, PartialEq)]
 enum Kind {
@@ -47,8 +55,16 @@ fn p_ev(t: &str, kind: Kind) -> R<Ev> {
         Ev::Iu(NothingOrError::<E>::dec(r)?)
     } else if let Some(r) = t.strip_prefix("gs:") {
         Ev::Gs(Output::<State, E>::dec(r)?)
+    } else if let Some(r) = t.strip_prefix("tgs:") {
+        Ev::Tgs(Output::<Datum<State>, E>::dec(r)?)
+    } else if let Some(r) = t.strip_prefix("tgc:") {
+        Ev::Tgc(Output::<Datum<Command>, E>::dec(r)?)
     } else {
         match t {
+            "tfs" => Ev::Tfs,
+            "tfc" => Ev::Tfc,
+            "tnfs" => Ev::Tnfs,
+            "tnfc" => Ev::Tnfc,
             "dis" => Ev::Dis,
             "upd" => Ev::Upd,
             "lr" => Ev::Lr,
@@ -60,6 +76,8 @@ fn p_ev(t: &str, kind: Kind) -> R<Ev> {
         Ev::Ws(_) | Ev::Wc(_) | Ev::Acc(_) | Ev::Dis => kind != Kind::Enc,
         Ev::Gs(_) => kind == Kind::Enc,
         Ev::Lr => kind == Kind::Pid,
+        // (the PID wrapper's line compares with a stand-alone PID fed from outside, which cannot see what a follower will deliver)
+        Ev::Tfs | Ev::Tfc | Ev::Tnfs | Ev::Tnfc | Ev::Tgs(_) | Ev::Tgc(_) => kind != Kind::Pid,
     };
     if allowed {
         Ok(ev)
@@ -85,6 +103,32 @@ fn terminal_event(ev: &Ev, w: Term, x: Term) -> Option<String> {
     })
 }
 
+/// The scripted getters the wrapper's terminal may follow, and the events that steer them; `None` if `ev` is not one of them.
+struct Followed {
+    s: Reference<Script<Datum<State>>>,
+    c: Reference<Script<Datum<Command>>>,
+}
+impl Followed {
+    fn new() -> Self {
+        Followed {
+            s: mk::<Datum<State>>(Ok(None)),
+            c: mk::<Datum<Command>>(Ok(None)),
+        }
+    }
+    fn event(&self, ev: &Ev, w: Term) -> Option<String> {
+        match ev {
+            Ev::Tfs => <Terminal<E> as Settable<Datum<State>, E>>::follow(&mut *w.borrow_mut(), as_dyn(&self.s)),
+            Ev::Tfc => <Terminal<E> as Settable<Datum<Command>, E>>::follow(&mut *w.borrow_mut(), as_dyn(&self.c)),
+            Ev::Tnfs => <Terminal<E> as Settable<Datum<State>, E>>::stop_following(&mut *w.borrow_mut()),
+            Ev::Tnfc => <Terminal<E> as Settable<Datum<Command>, E>>::stop_following(&mut *w.borrow_mut()),
+            Ev::Tgs(o) => set(&self.s, o.clone()),
+            Ev::Tgc(o) => set(&self.c, o.clone()),
+            _ => return None,
+        }
+        Some(dash())
+    }
+}
+
 fn act(toks: &[&str], out: &mut Vec<String>) -> R<()> {
     let events = p_events(&toks[2..], Kind::Act)?;
     let inner = Rec::<TerminalData>::new();
@@ -93,8 +137,13 @@ fn act(toks: &[&str], out: &mut Vec<String>) -> R<()> {
     let w: Term = wrapper.get_terminal();
     let x: Term = leak_terminal();
     connect(w, x);
+    let fol = Followed::new();
     for ev in events {
         if let Some(tok) = terminal_event(&ev, w, x) {
+            out.push(tok);
+            continue;
+        }
+        if let Some(tok) = fol.event(&ev, w) {
             out.push(tok);
             continue;
         }
@@ -131,8 +180,13 @@ fn enc(toks: &[&str], out: &mut Vec<String>) -> R<()> {
     let w: Term = wrapper.get_terminal();
     let x: Term = leak_terminal();
     connect(w, x);
+    let fol = Followed::new();
     for ev in events {
         if let Some(tok) = terminal_event(&ev, w, x) {
+            out.push(tok);
+            continue;
+        }
+        if let Some(tok) = fol.event(&ev, w) {
             out.push(tok);
             continue;
         }
